@@ -56,6 +56,9 @@ def wild_cases(draw):
             w2 = wts[::-1].copy() if not np.allclose(wts, wts[::-1]) else wts * np.linspace(0.9, 1.1, len(wts))
         if variant == "size-differs":
             p2, w2 = (np.asarray(x) for x in basix.make_quadrature(ct, q + 2))
+        if p2.shape == pts.shape and np.allclose(p2, pts, rtol=1e-3, atol=1e-3) and np.allclose(w2, wts, rtol=1e-3, atol=1e-3):
+            variant = "consistent"  # e.g. a one-point rule: its point is the centroid, pulling it towards the centroid changes nothing
+            p2, w2 = pts.copy(), wts.copy()
         els = [["cquad", pts.tolist(), wts.tolist(), []], ["cquad", p2.tolist(), w2.tolist(), []], ["el", "P", 1, {}]]
         arity = draw(st.sampled_from([0, 1]))
         e = ["mul", ["f", 0], ["f", 1]]
